@@ -749,6 +749,9 @@ class _Flattener:
         new_name = self.generate_flattened_name(
             self.group(dim), self.name(dim)
         )
+        new_name = self.unique_flattened_name(
+            new_name, self._output_ds.dimensions
+        )
 
         # Write dimension
         self._output_ds.createDimension(
@@ -791,6 +794,9 @@ class _Flattener:
         # Create new name
         new_name = self.generate_flattened_name(
             self.group(var), self.name(var)
+        )
+        new_name = self.unique_flattened_name(
+            new_name, self._output_ds.variables
         )
 
         # Replace old by new dimension names
@@ -1659,6 +1665,42 @@ class _Flattener:
                     ).hexdigest()
 
         return new_name
+
+    def unique_flattened_name(self, new_name, names_in_use):
+        """Make a flattened name different from those already in use.
+
+        Different elements can have the same flattened name, e.g. a
+        root group variable ``a__b`` and a variable ``b`` in group
+        ``/a``. In that case a counter is appended to the name of the
+        element that is flattened later. The name actually used is
+        recorded in the name mapping attributes, from which the
+        original path is recovered.
+
+        .. versionadded:: (cfdm) NEXTVERSION
+
+        :Parameters:
+
+            new_name: `str`
+                The name from `generate_flattened_name`.
+
+            names_in_use:
+                The names already used in the output dataset for this
+                kind of element.
+
+        :Returns:
+
+            `str`
+                The name, with ``_<n>`` appended if it was in use.
+
+        """
+        if new_name not in names_in_use:
+            return new_name
+
+        n = 1
+        while f"{new_name}_{n}" in names_in_use:
+            n += 1
+
+        return f"{new_name}_{n}"
 
     def handle_reference_error(self, ref, context=None):
         """Handle reference error.
